@@ -780,6 +780,10 @@ def check(run, db, tier):
         return rule
     for fn in (clamp_rules, live_state_rules, reading(bayer_rules, 'bayer'), reading(cfa_passthrough_rules, 'bayer'), reading(bin_rules, 'bin'), accumulate_rules):
         run.group(fn, run, db)
+    run.forgive('bin_value_rules', ['bin_rules'])
+    run.forgive('bayer_value_rules', ['bayer_rules', 'cfa_passthrough_rules'])
+    run.forgive('wb_value_rules', ['bayer_rules', 'bin_rules'])
+    run.forgive('expose_shape_value_rules', ['clamp_rules'])
     run.require_instances('C16.bayer', 15)
     run.require_instances('C16.kernel', 4)
     run.require_instances('C16.clamp', 7)
